@@ -955,7 +955,7 @@ def normalize_module_trees(modules: Dict[str, ast.Module]) -> List[str]:
                         if isinstance(f, ast.Name) and f.id in class_defs and f.id not in KNOWN_CLASSES:
                             return class_defs[f.id]
                         return None
-                    if _pass == 0:
+                    if True:
                         nf = _rewrite_functional(fn)
                         if nf:
                             any_change = True
